@@ -102,6 +102,24 @@ fn check_case(out: &mut Out, trees: &Trees, opi: usize, a: &RV, b: &RV, literals
             "build_operator_tree failed".into(),
         ),
     }
+    // route 1b: the same variable on both sides (an implementation may not equate "same storage" with "equal")
+    if a.same(b) {
+        if let Built::Tree(t) = api::build(&format!("a {} a", op)) {
+            let c = ctx_ab(a, b);
+            let got = api::eval_tree(&t, &c);
+            let got_mut = api::eval_tree_mut(&t, &mut c.clone());
+            out.evals(2);
+            out.count("same-variable route");
+            if !accept(&exp, &got) || !accept(&exp, &got_mut) {
+                out.violation(
+                    "binary-operator/same-variable",
+                    format!("a {} a with a={}", op, a.show()),
+                    show_exp(&exp),
+                    format!("read-only {} / mutable {}", got.show(), got_mut.show()),
+                );
+            }
+        }
+    }
     // route 2: operands as literals
     if literals {
         if let (Some(la), Some(lb)) = (a.literal(), b.literal()) {
